@@ -265,8 +265,9 @@ def by6(ctx):
     # an Ok return without a write happens only for an empty buffer
     r0 = b.reach([b.entry], avoid=ws)
     silent = [e for e in exits if e in r0]
-    empt = list(b.switches_on_call(lambda c: c.name.endswith('<impl [u8]>::is_empty') or c.name.endswith('::is_empty')))
-    ok_silent = all(any(b.edge_dominates(te, e) for (_bi, _c, te, _fe, _cs) in empt) for e in silent)
+    from vocab import emptiness_tests
+    empt = emptiness_tests(b)
+    ok_silent = all(any(b.edge_dominates(te, e) for (te, _fe, _cs) in empt) for e in silent)
     ctx.check(ok_silent, '%s:silent-only-if-empty' % b.path, where(b, (silent or [b.entry])[0]), 'Ok without a write only on the `buf.is_empty()` edge',
               'the block writer can return Ok without writing a non-empty buffer (inverted / missing emptiness test): bytes counted by the callers never reach the WAL')
     # the written buffer is the parameter
@@ -333,7 +334,8 @@ def gate_calls(ctx, b):
                         gates.append({'kind': 'retry' if o[2]['op'] == 'Eq' else 'past', 'op': o[2]['op'], 'true': e[0], 'false': e[1], 'point': o[1],
                                       'pos_left': fl.op_tainted(a, t_pos)})
     # empty-batch gate: is_empty on a Vec<u8> local (the serialised buffer)
-    for (bi, c, te, fe, cs) in b.switches_on_call(lambda c: re.search(r'Vec::<u8>::is_empty$', c.name) is not None or re.search(r'\[u8\]>::is_empty$', c.name) is not None):
+    from vocab import emptiness_tests
+    for (te, fe, cs) in emptiness_tests(b, r'Vec::<u8>|\[u8\]>'):
         gates.append({'kind': 'empty', 'call': cs, 'true': te, 'false': fe})
     return gates
 
